@@ -10,13 +10,14 @@ use crate::{
     RawSyntaxKind, Syntax,
 };
 #[cfg(cstree_verif)]
-use crate::verif::{AtomicU32, RwLock};
+use crate::verif::{AtomicU32, RwLock, UnsafeCell};
 #[cfg(not(cstree_verif))]
 use parking_lot::RwLock;
 #[cfg(not(cstree_verif))]
+use std::cell::UnsafeCell;
+#[cfg(not(cstree_verif))]
 use std::sync::atomic::AtomicU32;
 use std::{
-    cell::UnsafeCell,
     fmt,
     hash::{Hash, Hasher},
     iter,
@@ -297,6 +298,7 @@ impl<S: Syntax, D> NodeData<S, D> {
                 ptr:        ptr as usize,
                 data_lock:  &(*ptr).data as *const _ as usize,
                 slot_locks: (*ptr).child_locks.as_ptr() as usize,
+                slots:      (*ptr).children.as_ptr() as usize,
                 n_slots:    (*ptr).child_locks.len(),
             })
         };
